@@ -443,6 +443,30 @@ def make_strategy(script: dict):
                         if len(parts) > 1 and s.get('tp'):
                             rows.append((parts[1], self._px(price * (1 + sign * s['tp']))))
                         self.take_profit = rows
+                    elif kind in ('reweight_tp', 'reweight_sl') and s.get('tp' if kind == 'reweight_tp' else 'sl') \
+                            and self.exchange_type != 'spot':
+                        # the same ladder prices (anchored at the entry price) with unequal quantities whose order alternates from
+                        # call to call: consecutive declarations are permutations of each other column by column, not row by row
+                        from decimal import Decimal, ROUND_FLOOR
+                        D = Decimal(repr(float(q)))
+                        unit = Decimal(1).scaleb(-(self.s.get('qty_dec', 3) + 2))
+                        small = (D / 4).quantize(unit, rounding=ROUND_FLOOR)
+                        if small > 0 and D - small != small:
+                            parts = [float(small), float(D - small)]
+                            if self.index % 2:
+                                parts.reverse()
+                            dist = s['tp'] if kind == 'reweight_tp' else s['sl']
+                            sgn = sign if kind == 'reweight_tp' else -sign
+                            entry = self.position.entry_price
+                            prices = [self._px(entry * (1 + sgn * dist * (1 + 0.5 * i))) for i in range(2)]
+                            # only when both levels are still resting levels (beyond the current price on their side)
+                            ok = all((pp - price) * sgn > abs(price) * 0.0005 for pp in prices) and prices[0] != prices[1]
+                            if ok:
+                                rows = list(zip(parts, prices))
+                                if kind == 'reweight_tp':
+                                    self.take_profit = rows
+                                else:
+                                    self.stop_loss = rows
                     elif kind == 'near_tp':
                         # an exit within / around the 0.015 % market band
                         off = [0.0, 0.0001, 0.00015, 0.0002, 0.0003][int(self.rnd('near') * 5)]
